@@ -1765,3 +1765,24 @@ Proof.
     rewrite !app_length. cbn [length put16]. lia. }
   replace (S (34 + L)) with (length os + S (34 + L - length os))%nat by lia. apply extract_enc6; assumption.
 Qed.
+
+(* the DHCPv6 proxy's two-message sequence (plugins/dhcp6/proxy handleForwardAndRewrite) with VALUE semantics: the
+   learnt server DUID is the one in the server's message, survives rewriting that message, and is what the forwarded
+   REQUEST carries; the client sees the proxy's DUID *)
+Lemma v6_proxy_sequence : forall h a sd b pd h' a' x b',
+  length h = 4%nat -> length h' = 4%nat -> Forall opt6_ok a -> Forall (fun o => fst o <> 2) a ->
+  Forall opt6_ok a' -> Forall (fun o => fst o <> 2) a' ->
+  blen sd < 65536 -> blen pd < 65536 -> blen x < 65536 ->
+  let adv := h ++ enc6 (a ++ (2, sd) :: b) in
+  let req := h' ++ enc6 (a' ++ (2, x) :: b') in
+  get_server_duid adv = Some sd /\
+  get_server_duid (replace_server_duid adv pd) = Some pd /\
+  replace_server_duid req sd = h' ++ enc6 (a' ++ (2, sd) :: b') /\
+  get_server_duid (replace_server_duid req sd) = Some sd.
+Proof.
+  intros h a sd b pd h' a' x b' Lh Lh' Oa Na Oa' Na' Hsd Hpd Hx adv req. subst adv req.
+  destruct (replace_server_duid_spec h a sd b sd Lh Oa Na Hsd Hsd) as [_ G0].
+  destruct (replace_server_duid_spec h a sd b pd Lh Oa Na Hsd Hpd) as [R1 G1].
+  destruct (replace_server_duid_spec h' a' x b' sd Lh' Oa' Na' Hx Hsd) as [R2 G2].
+  repeat split; try assumption; rewrite ?R1, ?R2; assumption.
+Qed.
